@@ -529,15 +529,17 @@ Section Signatures.
     - cbn [run_C06_gen spec_C06 known_C06_gen] in *.
       destruct (layout_of k1) as [l1|] eqn:L1; [|discriminate Ok].
       destruct (layout_of k2) as [l2|] eqn:L2; [|discriminate Ok].
+      destruct (sign_accept l1 r1 j1); cbn [zb Z.eqb andb]; [|reflexivity].
+      destruct (accept l1 r1 j1) eqn:A1; cbn [zb Z.eqb andb]; [|reflexivity].
+      destruct (accept l2 r2 j2) eqn:A2; cbn [zb Z.eqb andb]; [|reflexivity].
+      destruct (bytes_eqb (Hf (enc l1 r1)) (Hf (enc l2 r2))) eqn:B; cbn [zb Z.eqb andb]; [|reflexivity].
+      apply bytes_eqb_eq in B. apply Hf_inj in B.
+      assert (Be : bytes_eqb (enc l1 r1) (enc l2 r2) = true) by (apply bytes_eqb_eq; exact B).
+      rewrite Be in K.
       destruct (N.eqb k1 k2) eqn:Ek; cbn [negb] in K; [|discriminate K].
       apply N.eqb_eq in Ek. subst k2. rewrite L1 in L2. inversion L2; subst l2.
       destruct (list_eqb N.eqb (shape l1 r1) (shape l1 r2)) eqn:S; [|discriminate K].
       apply (list_eqb_eq N.eqb N.eqb_eq) in S.
-      destruct (sign_accept l1 r1 j1); cbn [zb Z.eqb andb]; [|reflexivity].
-      destruct (accept l1 r1 j1) eqn:A1; cbn [zb Z.eqb andb]; [|reflexivity].
-      destruct (accept l1 r2 j2) eqn:A2; cbn [zb Z.eqb andb]; [|reflexivity].
-      destruct (bytes_eqb (Hf (enc l1 r1)) (Hf (enc l1 r2))) eqn:B; cbn [zb Z.eqb andb]; [|reflexivity].
-      apply bytes_eqb_eq in B. apply Hf_inj in B.
       cbn [andb]. apply row_eqb_eq.
       eapply same_shape_inj; try eassumption; eapply accept_wf; eassumption.
     - cbn [run_C06_gen spec_C06 known_C06_gen] in *.
